@@ -24,14 +24,14 @@ RULE = (
 )
 ASSUMPTIONS = ["the digest covers what the statement lists; wall-clock output of Runner.main is excluded"]
 REQUIRED = {
-    "quick": {"in_process_pairs": 24, "child_processes_compared": 8, "class/correlated_fundamentals": 8,
-              "class/all_builtin_event_classes": 8, "class/nontrivial_run": 16, "different_seed_pairs": 10,
-              "settings_objects_compared": 24, "near_twin_runs_before": 1, "refused_runs_before": 4,
+    "quick": {"in_process_pairs": 20, "child_processes_compared": 8, "class/correlated_fundamentals": 5,
+              "class/all_builtin_event_classes": 6, "class/nontrivial_run": 14, "different_seed_pairs": 10,
+              "settings_objects_compared": 20, "near_twin_runs_before": 1, "refused_runs_before": 4,
               "class/cheap_stock_run_with_sub_tick_draws_compared": 1, "class/crowd_run_compared_with_and_without_a_logger": 2,
               "class/user_market_class_drawing_from_its_generator_compared_across_hash_seeds": 2},
-    "thorough": {"in_process_pairs": 500, "child_processes_compared": 300, "class/correlated_fundamentals": 200,
-                 "class/all_builtin_event_classes": 200, "class/nontrivial_run": 400, "different_seed_pairs": 200,
-                 "settings_objects_compared": 500, "near_twin_runs_before": 30, "refused_runs_before": 100,
+    "thorough": {"in_process_pairs": 400, "child_processes_compared": 250, "class/correlated_fundamentals": 150,
+                 "class/all_builtin_event_classes": 150, "class/nontrivial_run": 300, "different_seed_pairs": 200,
+                 "settings_objects_compared": 400, "near_twin_runs_before": 30, "refused_runs_before": 100,
                  "class/cheap_stock_run_with_sub_tick_draws_compared": 20, "class/crowd_run_compared_with_and_without_a_logger": 30,
                  "class/user_market_class_drawing_from_its_generator_compared_across_hash_seeds": 30},
 }
